@@ -60,6 +60,12 @@ class C20(Prop):
             case = gen_cp_case(rng, tier)
             case["n_ranks_forced"] = 1
             case["kind"] = "overlay"
+            if rng.random() < 0.4:
+                # events whose "args" object is empty (nothing but the mandatory fields): still events the overlay has to mark
+                for rk in case["ranks"]:
+                    for e in rk["events"][1:]:
+                        if e.get("cat") == "cpu_op" and e.get("ph") == "X" and rng.random() < 0.4:
+                            e["args"] = {}
             if rng.random() < 0.5:
                 # a profile taken with with_stack=True: python_function entries (frames of the interpreter) around top-level operators,
                 # anywhere in the file
@@ -85,7 +91,13 @@ class C20(Prop):
         if nometa:
             for r in recs:
                 r["meta"].pop("distributedInfo", None)
-        return {"kind": "files", "ranks": recs, "newranks": rng.sample(range(0, 1001), len(ranks)), "nometa": nometa}
+        case = {"kind": "files", "ranks": recs, "newranks": rng.sample(range(0, 1001), len(ranks)), "nometa": nometa}
+        if nometa and k % 10 == 9:
+            # the rewritten file is padded so that the digits of its rank straddle a 2^20-character boundary (and with it every smaller
+            # power-of-two boundary): whoever reads the file in blocks must not cut the number
+            case["align"] = True
+            case["newranks"][0] = rng.randrange(10, 1001)
+        return case
 
     def observe(self, case):
         return self._overlay(case) if case["kind"] == "overlay" else self._files(case)
@@ -177,6 +189,8 @@ class C20(Prop):
                         back = read_trace(q)
                         obs["rt"].append({"fmt": ext, "before": dig(rt.to_json()), "after": dig(back)})
                     want = case["newranks"][k]
+                    if k == 0 and case.get("align"):
+                        self._align_rank_digits(p, want, update_trace_rank)
                     before = read_any(p)
                     update_trace_rank(p, want)
                     after = read_any(p)
@@ -195,6 +209,35 @@ class C20(Prop):
             except Exception as ex:
                 obs["err"] = hta.exc_str(ex)
         return obs
+
+    @staticmethod
+    def _align_rank_digits(p: str, want: int, update_trace_rank) -> None:
+        """Pad the source file (a filler metadata entry inside traceEvents) so that, once the tool has rewritten it with rank `want`, the
+        second digit of the rank is the first character of a 2^20-character block of the (decompressed) text."""
+        import re
+        scratch = os.path.join(os.path.dirname(p), "probe_" + os.path.basename(p))
+        data = read_any(p)
+        filler = {"name": "thread_name", "ph": "M", "pid": 0, "tid": 0, "args": {"name": ""}}
+        data["traceEvents"].append(filler)
+
+        def dump(n: int) -> int:
+            filler["args"]["name"] = "x" * n
+            raw = json.dumps(data).encode()
+            with open(scratch, "wb") as f:
+                f.write(gzip.compress(raw) if scratch.endswith(".gz") else raw)
+            update_trace_rank(scratch, want)
+            txt = open(scratch, "rb").read()
+            txt = (gzip.decompress(txt) if txt[:2] == b"\x1f\x8b" else txt).decode()
+            m = re.search(r'"rank":\s*(\d+)', txt)
+            return m.start(1)
+        q = dump(0)
+        need = (-(q + 1)) % (1 << 20)
+        q2 = dump(need)
+        if (q2 + 1) % (1 << 20) == 0:
+            raw = json.dumps(data).encode()
+            with open(p, "wb") as f:
+                f.write(gzip.compress(raw) if p.endswith(".gz") else raw)
+        os.remove(scratch)
 
     def nontrivial(self, case, obs):
         if obs.get("kind") == "overlay":
